@@ -7,6 +7,7 @@ from typing import List, Optional, Set
 from fdlstatic import cfg as cfg_lib
 from fdlstatic.ctx import Ctx, kwarg
 from fdlstatic.model import AnalysisError, FuncInfo, unparse, walk_function, walk_stmts
+from fdlstatic import roles
 from fdlstatic.report import RuleSet
 from fdlstatic.rules import c14
 
@@ -280,21 +281,42 @@ def run(ctx: Ctx, rs: RuleSet, tier: str):
              'earlier', ctx.loc(f, f.node))
   cm = ctx.func(f'{AC}.complex_to_variables.move_complex_nodes_to_variables._process_fn')
   ok = False
+  fn_p = cm.params[0]
+  # the list that becomes fn.variables
+  newvars = {unparse(st.value) for st in walk_function(cm.node)
+             if isinstance(st, ast.Assign) and unparse(
+                 st.targets[0]) == f'{fn_p}.variables' and isinstance(
+                     st.value, ast.Name)}
   for n in walk_function(cm.node):
-    if isinstance(n, ast.For) and unparse(n.iter) == 'fn.variables':
-      body = [unparse(s) for s in n.body]
-      ok = any('MemoizedTraversal.run(traverse, variable)' in b for b in body) and any(
-          b.startswith('new_variables.append(rewritten_variable)') for b in body)
-      # the rewritten variable is appended after its traversal
-      idx_t = [i for i, b in enumerate(body) if 'MemoizedTraversal.run' in b]
-      idx_a = [i for i, b in enumerate(body) if b.startswith(
-          'new_variables.append(')]
-      ok = ok and idx_t and idx_a and idx_t[0] < idx_a[-1]
+    if isinstance(n, ast.For) and unparse(n.iter) == f'{fn_p}.variables' and (
+        isinstance(n.target, ast.Name)):
+      var = n.target.id
+      # position of the traversal of the variable (which appends what it
+      # extracts) and of the re-append of the rewritten variable
+      idx_t, idx_a, rew = [], [], set()
+      for i, st in enumerate(n.body):
+        if isinstance(st, ast.Assign) and isinstance(
+            st.value, ast.Call) and unparse(st.value.func).endswith(
+                'MemoizedTraversal.run') and len(
+                    st.value.args) == 2 and unparse(st.value.args[1]) == var:
+          idx_t.append(i)
+          rew |= {t.id for t in st.targets if isinstance(t, ast.Name)}
+        if isinstance(st, ast.Expr) and isinstance(
+            st.value, ast.Call) and isinstance(
+                st.value.func, ast.Attribute) and (
+                    st.value.func.attr == 'append') and unparse(
+                        st.value.func.value) in newvars and st.value.args and (
+                            unparse(st.value.args[0]) in rew):
+          idx_a.append(i)
+      ok = bool(idx_t) and bool(idx_a) and idx_t[0] < idx_a[-1]
   rs.check(ok, rule, f'{cm.qualname}:existing-variables',
            'an existing variable is re-appended after the variables extracted '
            'from its own expression', ctx.loc(cm, cm.node))
   sm = ctx.func(f'{AC}.shared_to_variables.move_shared_nodes_to_variables._process_fn')
-  ok = any(unparse(c) == 'fn.variables.extend(new_variables)'
+  sm_new = roles.assigned_from(sm, lambda e: isinstance(e, ast.List) and
+                               not e.elts)
+  ok = any(unparse(c.func) == f'{sm.params[0]}.variables.extend' and
+           len(c.args) == 1 and unparse(c.args[0]) in sm_new
            for c in ctx.calls(sm))
   rs.check(ok, rule, f'{sm.qualname}:append',
            'new shared-value variables are appended after the existing ones',
@@ -305,13 +327,16 @@ def run(ctx: Ctx, rs: RuleSet, tier: str):
     if isinstance(n, ast.Call) and unparse(n.func) == 'cst.IndentedBlock':
       body = kwarg(n, 'body')
       if isinstance(body, ast.List) and len(body.elts) == 2 and isinstance(
-          body.elts[0], ast.Starred) and unparse(
-              body.elts[0].value) == 'variable_lines' and 'cst.Return(' in unparse(
+          body.elts[0], ast.Starred) and isinstance(
+              body.elts[0].value, ast.Name) and 'cst.Return(' in unparse(
                   body.elts[1]):
         ok = True
-  loop_ok = any(isinstance(n, ast.For) and unparse(n.iter) == 'fn.variables'
-                and any('variable_lines.append' in unparse(s) for s in n.body)
-                for n in walk_function(cf.node))
+        lines_var = body.elts[0].value.id
+  loop_ok = ok and any(
+      isinstance(n, ast.For) and unparse(n.iter) == f'{cf.params[0]}.variables'
+      and any(isinstance(c, ast.Call) and unparse(c.func) == (
+          f'{lines_var}.append') for st in n.body for c in ast.walk(st))
+      for n in walk_function(cf.node))
   rs.check(ok and loop_ok, rule, f'{cf.qualname}:body',
            'body = [*variable declarations in fn.variables order, return '
            '<output>]', ctx.loc(cf, cf.node))
